@@ -81,7 +81,7 @@ package ingress
 //@   ensures [C08:only_unauthorized] result == nil || result == ErrUnauthorized
 //@   ensures [C08:headers_present] hmacConfigured(a) && result == nil ==> trim(headerGet(r.Header, a.SignatureHeader)) != "" && trim(headerGet(r.Header, a.TimestampHeader)) != "" && trim(headerGet(r.Header, a.NonceHeader)) != ""
 //@   ensures [C08:timestamp_parses] hmacConfigured(a) && result == nil ==> ext2("strconv.ParseInt", "$1", trim(headerGet(r.Header, a.TimestampHeader)), 10, 64) == nil
-//@   ensures [C08:within_tolerance] hmacConfigured(a) && result == nil && a.Tolerance > 0 ==> let t := unixTime(ext2("strconv.ParseInt", "$0", trim(headerGet(r.Header, a.TimestampHeader)), 10, 64)) :: clockNow - t <= a.Tolerance && t - clockNow <= a.Tolerance
+//@   ensures [C08:within_tolerance] hmacConfigured(a) && result == nil && a.Tolerance > 0 && a.Tolerance < 9223372036854775807 ==> let t := unixTime(ext2("strconv.ParseInt", "$0", trim(headerGet(r.Header, a.TimestampHeader)), 10, 64)) :: clockNow - t <= a.Tolerance && t - clockNow <= a.Tolerance
 //@   ensures [C08:signature_matches_a_secret] hmacConfigured(a) && result == nil ==> let sig := hexdecOf(trim(headerGet(r.Header, a.SignatureHeader))) :: let msg := signedMessage(trim(headerGet(r.Header, a.TimestampHeader)), r.Method, requestPath, body) :: let i := rangeindex1 :: (a.SelectSecrets == nil ==> 0 <= i && i < len(a.Secrets) && len(a.Secrets[i]) > 0 && sig == hmacSHA256(a.Secrets[i], msg)) && (a.SelectSecrets != nil ==> 0 <= i && i < len(selectedSecrets) && len(selectedSecrets[i]) > 0 && sig == hmacSHA256(selectedSecrets[i], msg))
 //@   ensures [C08:secrets_valid_at_signed_time] hmacConfigured(a) && result == nil && a.SelectSecrets != nil ==> selectedAt == unixTime(ext2("strconv.ParseInt", "$0", trim(headerGet(r.Header, a.TimestampHeader)), 10, 64))
 //@   ensures [C09:nonce_recorded_until_window_end] hmacConfigured(a) && result == nil ==> a.nonce != nil && trim(headerGet(r.Header, a.NonceHeader)) in a.nonce.m && a.nonce.m[trim(headerGet(r.Header, a.NonceHeader))] == unixTime(ext2("strconv.ParseInt", "$0", trim(headerGet(r.Header, a.TimestampHeader)), 10, 64)) + a.Tolerance
